@@ -29,6 +29,8 @@ RULE = ('random tier: two typed nullable tables (2-4 columns of int/double/strin
         'AND OR NOT, isNull / isNotNull, between, coalesce, when/otherwise, alias, lit; exhaustive tier: every binary and '
         'unary operator over all pairs from a 9-value domain per type (3-value for boolean) incl. null, 0, -0.0, negative and '
         'fractional values, for the type pairs int-int, int-double, double-int, double-double, string-string, bool-bool; '
+        'dynamic tier (correspondence only): the modelled ill-typed behaviour of the class dispatch (bool as int, casts to '
+        'bool in comparisons, truthiness of non-booleans, str + str); '
         'non-trivial = the chain is non-empty and some step has rows; distinct by canonical JSON of the case')
 ASSUMPTIONS = [
     'Python ints stay below 2^53 in absolute value (int -> float conversion is exact; the model uses float_of_Z)',
@@ -126,7 +128,7 @@ def _make_df(table):
     sc, spark = _session()
     names, types, parts = table
     tmap = {'i': T.LongType, 'd': T.DoubleType, 's': T.StringType, 'b': T.BooleanType}
-    schema = T.StructType([T.StructField(n, tmap[t](), True) for n, t in zip(names, types)])
+    schema = T.StructType([T.StructField(n, tmap[t.lower()](), True) for n, t in zip(names, types)])
     k = len(parts)
     # exactly the given partitions (empty ones included), through the public API only
     rdd = sc.parallelize(range(k), k).mapPartitionsWithIndex(lambda i, it: iter(list(parts[i])))
@@ -435,6 +437,8 @@ def oracle(case, result):
     SQL interpreter returns when it is applied to the implementation's own previous frame, and the final
     frame must not depend on the partitioning."""
     t1, t2, ops = case
+    if t1[1] != t1[1].lower():
+        return None       # ill-typed probe (upper-case type letters): outside the property, correspondence only
     if isinstance(result, Err):
         return (f'chain:{_kindname(ops)}:raises', f'the chain raised {result.name}')
     try:
@@ -805,6 +809,28 @@ def exhaustive_cases(rng):
     return cases
 
 
+DYN_DOM = {'i': [None, 0, 1, -1, 2], 'd': [None, 0.0, 1.0, -1.5, 2.5], 'b': [None, True, False],
+           's': [None, '', 'a', 'true', '1']}
+
+
+def dynamic_cases():
+    """ill-typed but modelled behaviour of the class dispatch (bool is an int in arithmetic, int/float vs bool
+    comparison casts to bool, AND/OR/NOT/when on non-booleans use Python truthiness, str + str concatenates):
+    only the correspondence looks at these (type letters in upper case switch the oracle off)"""
+    dummy = (['z'], 'i', [[]])
+    p, q = (COL, 'p'), (COL, 'q')
+    cases = []
+    full = [('eq', (CMP, EQ, p, q)), ('lt', (CMP, LT, p, q)), ('ge', (CMP, GE, p, q)), ('add', (ARITH, ADD, p, q)),
+            ('mul', (ARITH, MUL, p, q)), ('div', (ARITH, DIV, p, q)), ('and', (AND, p, q)), ('or', (OR, p, q)),
+            ('not', (NOT, p)), ('neg', (NEG, p)), ('case', (CASE, [(p, (LIT, 1))], (LIT, 0)))]
+    for t1, t2 in [('i', 'b'), ('b', 'i'), ('d', 'b'), ('b', 'd'), ('b', 'b'), ('s', 's'), ('i', 'i'), ('d', 'd'), ('i', 'd')]:
+        rows = [(x, y) for x in DYN_DOM[t1] for y in DYN_DOM[t2]]
+        items = [(ALIAS, e, n) for n, e in full if t1 != 's' or n not in ('mul', 'div', 'neg')]
+        cases.append(((['p', 'q'], (t1 + t2).upper(), [rows]), dummy, [(SELECT, items)]))
+        cases.append(((['p', 'q'], (t1 + t2).upper(), [rows[:7], rows[7:]]), dummy, [(FILTER, p), (FILTER, (OR, p, q))]))
+    return cases
+
+
 def generate(rng, tier):
     g = Gen(rng)
     heavy = exhaustive_cases(rng)
@@ -818,7 +844,7 @@ def generate(rng, tier):
             continue
         light.append(c)
     # the exhaustive cases are large (81 rows x ~17 expressions): spread them over the shards
-    cases = list(_corpus())
+    cases = list(_corpus()) + dynamic_cases()
     step = max(1, len(light) // (len(heavy) + 1))
     for i, c in enumerate(light):
         if i % step == 0 and heavy:
